@@ -181,8 +181,12 @@ def direct_check(prop, fam, case, obs):
     return f(case, obs) if f else None
 
 
+AGREE = {}   # (property, family) or family -> projection-aware comparison; default: textual equality
+
+
 def agree(prop, fam, case, obs, pred):
-    return obs == pred
+    f = AGREE.get((prop, fam)) or AGREE.get(fam)
+    return f(case, obs, pred) if f else obs == pred
 
 
 def explain_disagreement(prop, fam, case, obs, pred):
